@@ -217,7 +217,7 @@ Proof.
   - destruct parent.
     + destruct (find_nd (s_ents s) n) eqn:FP; simpl; auto.
       destruct (e_meta e || is_alias e); simpl; auto.
-      destruct (dotted_parent c praw); simpl; auto.
+      try unfold dotted_parent.
       apply sorted_go_add; auto.
     + destruct (NFRAG <=? frag)%N; simpl; auto.
       destruct nm as [|c0 rest]; [apply sorted_go_add; auto|].
@@ -244,7 +244,7 @@ Proof.
   destruct parent.
   - destruct (find_nd (s_ents s) n) eqn:FP; simpl; auto.
     destruct (e_meta e || is_alias e); simpl; auto.
-    destruct (dotted_parent c praw); simpl; auto.
+    try unfold dotted_parent.
     apply sorted_go_alias; auto.
   - destruct nm as [|c0 rest]; [apply sorted_go_alias; auto|].
     destruct (first_slash rest) as [[pre0 sb]|]; [|apply sorted_go_alias; auto].
@@ -301,8 +301,8 @@ Proof.
   assert (E2 : s_ents S2 = l1) by reflexivity.
   assert (K3 : keys l3 = keys (s_ents s)).
   { unfold l3. rewrite keys_map by (intro; apply clear_one_pres). rewrite E2. auto. }
-  assert (FIN : forall l, keys (if fx_delalias c then update_aliases true l else l) = keys l)
-    by (intro l0; destruct (fx_delalias c); auto; apply update_aliases_keys).
+  assert (FIN : forall l, keys (update_aliases true l) = keys l)
+    by (intro l0; apply update_aliases_keys).
   destruct (e_meta E).
   - destruct (by_oid l3 (e_par E)); simpl; auto.
     unfold SortedS. simpl. rewrite FIN. apply sorted_remove_id. rewrite keys_upd_id by (intro; reflexivity).
